@@ -232,6 +232,15 @@ def run_suite(ctx, vh, name, args):
     if rows is None:
         return
     ctx.note("live scenarios ran in %.0f s" % (time.time() - t0))
+    # Scenarios whose measured slack is too large to resolve an error of one heartbeat period (machine
+    # under load) are run again, up to twice; the run with the smallest slack is the one checked.
+    for attempt in range(2):
+        noisy = [r["name"] for r in rows if not r.get("env") and not r["err"] and 3 * tolerances(r)[0] >= min(r["I"], r["T"])]
+        if not noisy:
+            break
+        again = ctx.vh_jsonl(vh, "heartbeat", args + ["-names", ",".join(noisy), "-attempt", 10 + attempt], timeout=1500) or []
+        better = {a["name"]: a for a in again if not a.get("env") and not a["err"]}
+        rows = [better[r["name"]] if r["name"] in better and better[r["name"]]["slack"] < r["slack"] else r for r in rows]
     usable, skipped, lowres = [], 0, 0
     for r in rows:
         tol, _ = tolerances(r)
